@@ -126,7 +126,7 @@ type spec struct{ items []sres }
 const (
 	okClass = iota
 	notFound
-	conflict      // already exists / version conflict / pending finalizers
+	conflict // already exists / version conflict / pending finalizers
 	ownerConflict
 	phaseConflict
 )
